@@ -1,10 +1,16 @@
 import Netconan.Proofs.IpInt
+import Netconan.Proofs.UndoLine
 /-!
 # C02 – IP anonymization is exactly reversible with the same salt and options
 
 Address level: proved in full here (fresh memo, and every reachable memo).
-File level (`--undo` on anonymized text): the composition of this theorem with the text
-layer; the text-layer part is validated, see `Props/C06.lean` and DESIGN.md.
+File level (`--undo` on anonymized text), IPv4: proved here too (`undo_restores_line`,
+`undo_restores_token`): undoing an anonymized line replaces exactly the tokens that were written,
+each by `undo (anonymize token)`, which is the token's canonical spelling unless the token or its
+image is netmask-shaped / preserved (then the token is written back as it stands, resp. the
+property's proviso applies); every other character of the line is the original's.  Built on the
+scanner theorem of C06 (`Proofs/UndoScan.lean`: the scan of the output has the same kept characters;
+the scan of a text is unique).  IPv6 and the passage through files are validated, see DESIGN.md.
 -/
 namespace Netconan.Props.C02
 open Netconan Netconan.Spec Netconan.IpCore
@@ -50,5 +56,34 @@ example : Except.toOption (do
     let c0' ← seed [[true, false]]
     let (x, _) ← step hEx 4 1 c0' (.deanon y)
     pure (y, x) : Except Err (Nat × Nat)) = some (4, 6) := by decide
+
+open NoSurvival IpText Regex in
+/-- **`--undo` on an anonymized line (IPv4 stage)**: for every line, salt and option set, with `out` the
+anonymized line and `back` what undoing `out` gives (any anonymizer with the same salt and options – the
+replacement is a pure function of the token): `back` consists of the same kept characters as the line, at the
+same places, and every replaced token `t` reads `undo (anonymize t)`. -/
+theorem undo_restores_line (c : IpCfg) (hf : c.fam6 = false)
+    (hp : c.pattern = Pinned.Patterns.ipv4 ∨ c.pattern = Generated.Patterns.ipv4)
+    (line out back : List Char) (h1 : anonIpLine c false line = .ok out) (h2 : anonIpLine c true out = .ok back) :
+    ∃ segs : List Seg, line = srcs segs ∧ out = dsts segs ∧ ScanG S4 En4 (anonMatch c false) [] segs ∧
+      back = dsts (mapSegs (anonMatch c true) segs) :=
+  undo_of_anonymized_line c hf showV4_eq hp line out back h1 h2
+
+open NoSurvival IpText in
+/-- **…and what `undo (anonymize t)` is**, for a dotted quad `t` of value `n`: the token itself when `n` is
+netmask-shaped or in a preserved network (both directions leave it alone); otherwise – provided the image of
+`n` is not itself netmask-shaped or preserved, the property's proviso – the canonical spelling of `n`. -/
+theorem undo_restores_token (c : IpCfg) (hf : c.fam6 = false) (t : List Char) (ht : Lang core4 t) :
+    ∃ n, parseV4 t = .ok n ∧ n < 2 ^ 32 ∧
+      (Mask.shouldAnonymize c.nets n = false → anonMatch c false t = t ∧ anonMatch c true t = t) ∧
+      (Mask.shouldAnonymize c.nets n = true → Mask.shouldAnonymize c.nets (FN c.h c.pins 32 c.B n) = true →
+        anonMatch c true (anonMatch c false t) = showV4 n) :=
+  undo_anon_token c hf showV4_eq t ht
+
+open NoSurvival IpText in
+/-- the canonical spelling parses back to the same number (so undoing twice, or anonymizing the restored line
+again, starts from the same addresses) -/
+theorem canonical_spelling_parses (n : Nat) (h : n < 2 ^ 32) : parseV4 (showV4 n) = .ok n := by
+  rw [showV4_eq]; exact showQuad_parse n h
 
 end Netconan.Props.C02
